@@ -134,6 +134,7 @@ const NeverUUID = "00000000-0000-4000-8000-000000000000"
 func NewWorld(cfg Cfg, prop string) *World {
 	w := &World{Cfg: cfg, FS: vfs.New(), Root: dbRoot, M: NewModel(), Ever: map[string]bool{}, Dead: map[string]bool{}, prop: prop}
 	w.M.UniqueP = cfg.Index == 3
+	w.M.UniqueV = cfg.UniqueV()
 	vfs.Cur = w.FS
 	w.FS.LogOn = true
 	setGlobals(cfg)
